@@ -206,6 +206,45 @@ def c02_oracle(full, io, b):
             if bad:
                 out.append(fail(vc, h, comp, f"URL({src!r}).{comp} = {got!r}: the literal/encoded status of {bad!r} differs from the supplied {sup!r}", "constructor-delimiter-status"))
                 break
+    # URL level: query operations with a pairs / mapping argument — "the number and boundaries of … query pairs never change":
+    # the canonical query has exactly one '&'-piece per supplied pair, split at its first '=', and each side form-decodes to
+    # the UTF-8 bytes of the supplied key / value (ints and floats as str() renders them)
+    vq = View(full, io)
+    for h, n in enumerate(vq.cr):
+        f = full[n].split("\t")
+        arg = None
+        if f[0] == "mod" and f[3] == "with_query" and vq.alive(h):
+            arg = f[4]
+        elif f[0] == "bld" and vq.alive(h):
+            kw = dict(x.partition("=")[::2] for x in f[2:])
+            if kw.get("encoded") != "T" and "query" in kw:
+                arg = kw["query"]
+        if not arg or arg[0] not in "PMKDU":
+            continue
+        try:
+            from props_b import expand_arg
+            e_ = expand_arg(arg)
+        except Exception:
+            continue
+        if e_[0] != "pairs" or not all(no_surr_a(k + x) for k, x in e_[1]):
+            continue
+        raw = vq.get(h, "raw_query_string")
+        if raw is None or raw.startswith("!"):
+            continue
+        raw = dec(raw)
+        pieces = raw.split("&") if raw else []
+        exp = e_[1]
+        bad = None
+        if len(pieces) != len(exp):
+            bad = f"{len(pieces)} '&'-pieces for {len(exp)} supplied pairs"
+        else:
+            for pc, (k, x) in zip(pieces, exp):
+                kk, sep, xx = pc.partition("=")
+                if not sep or up.unquote_to_bytes(kk.replace("+", " ")) != k.encode("utf-8") or up.unquote_to_bytes(xx.replace("+", " ")) != x.encode("utf-8"):
+                    bad = f"piece {pc!r} does not decode to the supplied pair {(k, x)!r}"
+                    break
+        if bad:
+            out.append(fail(vq, h, "raw_query_string", f"query {raw!r}: {bad}", "query-pair-boundaries"))
     # URL level: a modifier must not change the decoded bytes of the components it does not target
     vv = View(full, io)
     tgt = {"with_user": {"raw_user"}, "with_password": {"raw_password"}, "with_host": set(), "with_port": set(), "with_scheme": set(),
@@ -798,6 +837,10 @@ def c06_oracle(full, io, b):
                     if got != t:
                         out.append(fail(v, h, acc, f"build({key}={t!r}) reads back as {acc} = {got!r}", "readback"))
     return out
+
+
+def no_surr_a(t):
+    return not any(0xD800 <= ord(c) <= 0xDFFF for c in t)
 
 
 def dlist_a(x):
